@@ -629,6 +629,208 @@ def _check_positional_insert(g):
     return sorted(set(problems))
 
 
+def check_rotation_operands(ctx, rule, fn):
+    """A small shape analysis over the child links, per path.  Abstract nodes are the values of pointer locals and of the
+    accessor reads get_left/get_right/get_parent; facts are child(X, side) = Y (and parent(X) = P where the side is not
+    known), established by accessor reads and by equality tests / assertions such as `get_left(parent) == n`.
+    rotateLeft(a) is only correct when a is the RIGHT child of its parent (rotateRight: the LEFT child) -- the
+    rotation's own entry assertion -- so at every rotation call the operand must be known to be that child of some
+    node; the call then rewrites the facts the way the rotation rewrites the links.  A local that was read as "the
+    sibling" before a rotation and is used as an operand afterwards no longer has such a fact: it is stale."""
+    problems = set()
+    n_rot = [0]
+    inits = RA.local_inits(fn)
+    OPP = {"L": "R", "R": "L"}
+
+    def side_of(call):
+        nm = call.callee["n"] if call.is_call() and call.callee else ""
+        return {"get_left": "L", "get_right": "R", "get_parent": "P"}.get(nm)
+
+    ret_of = {}
+    for c_ in fn.all_nodes():
+        if c_.d.get("inlined"):
+            for r_ in c_.d.get("rets", []):
+                ret_of[r_] = c_.id
+
+    def depth_of(a):
+        return 1 + max([depth_of(y) for y in a if isinstance(y, tuple)] + [0]) if isinstance(a, tuple) else 0
+
+    def ev(x, env, facts, bools):
+        """-> abstract node or None; may add facts (dicts are mutated)"""
+        x0 = x.strip()
+        if x0.d.get("inlined") and len(x0.d.get("rets", [])) != 1:
+            return env.get(("ret", x0.id))          # a virtually inlined helper with several returns: the one that ran
+        x = std_unwrap(x)
+        while x.kind in ("CXXStaticCastExpr", "CStyleCastExpr", "ParenExpr", "ImplicitCastExpr") and x.children:
+            x = std_unwrap(x.children[0])
+        if x.kind == "DeclRefExpr" and x.get("local"):
+            d = x.d["d"]
+            if d not in env:
+                env[d] = ("v", d)
+            return env[d]
+        if x.kind == "ConditionalOperator" and len(x.children) == 3:
+            c = std_unwrap(x.children[0])
+            if c.kind == "DeclRefExpr" and c.get("local") and c.d["d"] in bools:
+                return ev(x.children[1] if bools[c.d["d"]] else x.children[2], env, facts, bools)
+            return None
+        sd = side_of(x)
+        if sd is not None and x.args:
+            a = ev(x.args[-1], env, facts, bools)
+            if a is None:
+                return None
+            if sd == "P":
+                for (k0, k1), v in facts.items():
+                    if k1 in ("L", "R") and v == a:
+                        return k0
+                if ("P", a) in facts:
+                    return facts[("P", a)]
+                p_ = ("r", x.id, a)
+                if depth_of(p_) > 7:
+                    return None
+                facts[("P", a)] = p_
+                return p_
+            if (a, sd) in facts:
+                return facts[(a, sd)]
+            r_ = ("r", x.id, a)
+            if depth_of(r_) > 7:
+                return None
+            facts[(a, sd)] = r_
+            return r_
+        return None
+
+    def freeze(env, facts, bools):
+        return (tuple(sorted(env.items(), key=str)), tuple(sorted(facts.items(), key=str)), tuple(sorted(bools.items())))
+
+    def thaw(st):
+        return dict(st[0]), dict(st[1]), dict(st[2])
+
+    def rotate(a, sd, facts):
+        """rotateLeft: sd == 'R' (operand is the right child of u); mirrored for rotateRight"""
+        u = None
+        for (k0, k1), v in facts.items():
+            if k1 == sd and v == a:
+                u = k0
+        if u is None:
+            return False
+        inner = OPP[sd]
+        v = facts.get((a, inner))
+        w = None
+        for (k0, k1), val in list(facts.items()):
+            if k1 in ("L", "R") and val == u and k0 != a:
+                facts[(k0, k1)] = a
+                w = k0
+        if w is None and ("P", u) in facts:
+            w = facts[("P", u)]
+        facts[(a, inner)] = u
+        if v is not None:
+            facts[(u, sd)] = v
+            facts[("P", v)] = u
+        else:
+            facts.pop((u, sd), None)
+        facts[("P", u)] = a
+        if w is not None:
+            facts[("P", a)] = w
+        else:
+            facts.pop(("P", a), None)
+        return True
+
+    # a loop that re-roots its cursor (`n = grand; continue;`) derives ever deeper names: at a loop header, once the names
+    # stem from an earlier iteration, the iteration starts from scratch like a fresh call (facts forgotten: this can only
+    # lose precision)
+    hdr_first = set()
+    for lp_ in flow.natural_loops(fn):
+        ns_ = fn.blocks[lp_.header].nodes()
+        if ns_:
+            hdr_first.add(ns_[0].id)
+
+    def transfer(n, st):
+        env, facts, bools = thaw(st)
+        if n.id in hdr_first and any(depth_of(v) >= 4 for v in env.values()):
+            env = {k: ("v", k) for k in env if not isinstance(k, tuple)}
+            facts, bools = {}, {}
+            st = freeze(env, facts, bools)
+        if n.kind == "DeclStmt":
+            for d in n.get("decls", []):
+                if "init" in d:
+                    ini = fn.node(d["init"])
+                    if (ini.get("t") or "").rstrip().endswith("*") or (d.get("t") or "").rstrip().endswith("*"):
+                        v = ev(ini, env, facts, bools)
+                        env[d["d"]] = v if v is not None else ("v", d["d"], n.id)
+            return [freeze(env, facts, bools)]
+        if n.kind == "InlinedReturn" and n.child("val") is not None and n.child("val").id in ret_of:
+            v = ev(n.child("val"), env, facts, bools)
+            if v is not None:
+                env[("ret", ret_of[n.child("val").id])] = v
+            else:
+                env.pop(("ret", ret_of[n.child("val").id]), None)
+            return [freeze(env, facts, bools)]
+        if n.kind == "ParamBind" and str(n.d.get("t", "")).rstrip().endswith("*") and n.d.get("init") is not None:
+            v = ev(fn.node(n.d["init"]), env, facts, bools)
+            env[n.d["d"]] = v if v is not None else ("v", n.d["d"], n.id)
+            return [freeze(env, facts, bools)]
+        if n.kind == "BinaryOperator" and n.op == "=":
+            d = _local_did(n.children[0])
+            if d is not None and (n.children[0].get("t") or "").rstrip().endswith("*"):
+                v = ev(n.children[1], env, facts, bools)
+                env[d] = v if v is not None else ("v", d, n.id)
+                return [freeze(env, facts, bools)]
+        if n.is_call() and n.callee and n.kind in ("CXXMemberCallExpr", "CallExpr") and not n.d.get("inlined"):
+            nm = n.callee["n"]
+            if nm in ("rotateLeft", "rotateRight") and n.args:
+                n_rot[0] += 1
+                a = ev(n.args[-1], env, facts, bools)
+                sd = "R" if nm == "rotateLeft" else "L"
+                if a is not None:
+                    if not rotate(a, sd, facts):
+                        problems.add("%s at %s: its operand %s is not known to be the %s child of its parent on a path leading here "
+                                     "(a link read before an earlier rotation no longer describes the tree)" % (
+                                         nm, n.loc, _ids(canon(n.args[-1])), "right" if sd == "R" else "left"))
+                        facts = {k: v for k, v in facts.items() if a not in (k[0], v)}
+                return [freeze(env, facts, bools)]
+            if n.kind == "CXXMemberCallExpr" and side_of(n) is None and not nm.startswith(("is", "get_", "aggregate", "h", "check_")) and nm not in Ser.PURE:
+                facts = {}          # anything else of the tree class may restructure it
+                return [freeze(env, facts, bools)]
+        return [st]
+
+    def refine(cond, truth, st):
+        env, facts, bools = thaw(st)
+        c, t = cond.strip(), truth
+        while c.kind == "UnaryOperator" and c.op == "!":
+            c, t = c.children[0].strip(), not t
+        if c.kind == "DeclRefExpr" and c.get("local") and (c.get("t") or "") in ("bool", "const bool", "_Bool"):
+            d = c.d["d"]
+            if d in bools and bools[d] != t:
+                return []
+            bools[d] = t
+            ini = inits.get(d)
+            if ini is not None and not RA._reassigned(fn, d):
+                c, t = ini.strip(), t
+                while c.kind in ("ParenExpr",) and c.children:
+                    c = c.children[0].strip()
+                while c.kind == "UnaryOperator" and c.op == "!":
+                    c, t = c.children[0].strip(), not t
+        if c.kind == "BinaryOperator" and c.op in ("==", "!=") and ((c.op == "==") == t):
+            l, r = std_unwrap(c.children[0]), std_unwrap(c.children[1])
+            for acc, other in ((l, r), (r, l)):
+                a0 = acc
+                while a0.kind in ("CXXStaticCastExpr", "CStyleCastExpr", "ParenExpr", "ImplicitCastExpr") and a0.children:
+                    a0 = std_unwrap(a0.children[0])
+                sd = side_of(a0)
+                if sd in ("L", "R") and a0.args:
+                    x = ev(a0.args[-1], env, facts, bools)
+                    y = ev(other, env, facts, bools)
+                    if x is not None and y is not None:
+                        if facts.get((x, OPP[sd])) == y:
+                            return []           # a node is not both the left and the right child of the same parent
+                        facts[(x, sd)] = y
+        return [freeze(env, facts, bools)]
+    try:
+        flow.run(fn, [((), (), ())], transfer, refine, limit=200000)
+    except flow.TooManyStates:
+        return None, 0
+    return sorted(problems), n_rot[0]
+
+
 def check_C06(ctx, unit):
     ctx.rule("M.rb-mirror", "red-black tree: rotateLeft/rotateRight and insert_left/insert_right have mirror-image guarded "
              "effects; inside fix_insert, fix_remove, replace_node, remove_half_leaf and the rotations every left/right case "
@@ -661,6 +863,24 @@ def check_C06(ctx, unit):
     remove_all = inline_variant(unit, f("remove"), sel_remove)
     check_mirror_fns(ctx, "M.rb-mirror", f("rotateLeft"), f("rotateRight"), MIRROR_RB, RB + "::rotateLeft ~ rotateRight")
     check_mirror_fns(ctx, "M.rb-mirror", f("insert_left"), f("insert_right"), MIRROR_RB, RB + "::insert_left ~ insert_right")
+    ctx.rule("K.rotation-operand", "every rotation is applied to a node that is known, on that path, to be the corresponding child "
+             "of its parent (rotateLeft: the right child, rotateRight: the left child): facts come from accessor reads and equality "
+             "tests and are rewritten by each rotation (a per-path shape analysis over child links)", 2)
+    n_rot_total = 0
+    for name_, gs_ in sorted(fns.items()):
+        for g_ in gs_:
+            if name_ in ("rotateLeft", "rotateRight"):
+                continue
+            if not any(x.is_call() and x.callee and x.callee["n"] in ("rotateLeft", "rotateRight") and not x.d.get("inlined") for x in g_.events()):
+                continue
+            pr, nr = check_rotation_operands(ctx, "K.rotation-operand", g_)
+            if pr is None:
+                raise AnalysisBroken("rotation-operand analysis of %s exceeded its state budget" % g_.qn)
+            n_rot_total += nr
+            ctx.inst("K.rotation-operand", "%s::%s" % (RB, name_), not pr, g_.loc,
+                     "; ".join(pr[:2]) if pr else "every rotation operand is a known left/right child at the call", g_)
+    if n_rot_total < 8:
+        raise AnalysisBroken("anchor vanished: rotation calls in the red-black tree (found %d)" % n_rot_total)
     total = 0
     for name in ("fix_insert", "fix_remove", "replace_node", "remove_half_leaf", "rotateLeft", "rotateRight", "remove"):
         if name in fns:
